@@ -57,20 +57,64 @@ class Lock:
         self.f.close()
 
 
-def regen():
-    rc, out, err = run(['python3', os.path.join(VERIF, 'translator', 'py2lean.py'), '--repo', REPO], timeout=300)
+def regen(skip=()):
+    """regenerate the Lean modules from REPO's working tree. Returns a status dict:
+    fatal: message when nothing could be generated; failed: {'Module.fn': message} for functions left out (any
+    arithmetic) — only properties that depend on such a function are affected; effects: (ok, message) for the C09 table"""
+    cmd = ['python3', os.path.join(VERIF, 'translator', 'py2lean.py'), '--repo', REPO]
+    if skip:
+        cmd += ['--skip', ','.join(sorted(skip))]
+    rc, out, err = run(cmd, timeout=300)
+    st = {'fatal': None, 'failed': {}, 'effects': (True, ''), 'api': (True, '')}
     if rc == 3:
-        return False, out.strip()
+        st['fatal'] = out.strip()
+        return st
     if rc != 0:
         raise Infra(f'translator crashed rc={rc}: {err[-2000:]}')
+    try:
+        rep = json.loads(out.strip().split('\n')[-1])
+    except ValueError:
+        raise Infra(f'translator output not understood: {out[-500:]}')
+    for arith, d in rep.get('failed', {}).items():
+        for k, msg in d.items():
+            st['failed'].setdefault(k, msg)
     # static effect table (C09), regenerated from the same working tree
     rc2, out2, err2 = run(['python3', os.path.join(VERIF, 'translator', 'effects.py'), '--repo', REPO, '--out',
                            os.path.join(LEAN, 'GeodeVerif', 'GenF', 'Effects.lean')], timeout=300)
     if rc2 == 3:
-        return False, (out2 + err2).strip()[-600:]
-    if rc2 != 0:
+        st['effects'] = (False, (out2 + err2).strip()[-600:])
+    elif rc2 != 0:
         raise Infra(f'effects.py crashed rc={rc2}: {err2[-2000:]}')
-    return True, out.strip()
+    # the HTTP application (C20), regenerated from api/app.py
+    rc3, out3, err3 = run(['python3', os.path.join(VERIF, 'translator', 'api2lean.py'), '--repo', REPO, '--out',
+                           os.path.join(LEAN, 'GeodeVerif', 'GenF', 'Api.lean')], timeout=120)
+    if rc3 == 3:
+        st['api'] = (False, out3.strip()[-600:])
+    elif rc3 != 0:
+        raise Infra(f'api2lean.py crashed rc={rc3}: {err3[-2000:]}')
+    return st
+
+
+def base_fn(name):
+    """'Statistics.vcv_cart2local_33' -> 'Statistics.vcv_cart2local' (shape-specialised variants)"""
+    return re.sub(r'_(33|31)$', '', name)
+
+
+def gen_decl_to_skip(e):
+    """a Lean error inside a generated file: the translated function it belongs to ('Module.fn'), or None"""
+    m = re.search(r'Gen[FRQ]/(\w+)\.lean$', e['file'])
+    if not m or not e.get('decl') or m.group(1) in ('Dispatch', 'Effects', 'Api'):
+        return None
+    decl = e['decl'].replace('«', '').replace('»', '')
+    try:
+        cfg = json.load(open(os.path.join(VERIF, 'translator', 'targets.json')))
+        fns = [f for mc in cfg['modules'].values() if mc['lean'] == m.group(1) for f in mc.get('functions', [])]
+    except (OSError, ValueError):
+        fns = []
+    cands = [f for f in fns if decl == f or decl.startswith(f + '_') or decl.startswith(f + '.')]
+    if not cands:
+        return None
+    return f'{m.group(1)}.{max(cands, key=len)}'
 
 
 class Infra(Exception):
@@ -239,23 +283,50 @@ def check_property(pid, tier_):
     drv_ok = True
 
     with Lock():
-        # 1. REGEN
-        ok, msg = regen()
-        if not ok:
-            broken.append({'kind': 'translator', 'what': msg})
-            build_ok = False
-            drv_ok = False
-        # 2. PROVE (and build the driver used by the tie)
-        if ok:
-            targets = ([module] if module else []) + P.get('extra_modules', []) + list(P.get('more_proof_modules', ()))
-            bok, btxt = lake_build(targets) if targets else (True, '')
+        # 1. REGEN + 2. PROVE (and build the driver used by the tie). A function the translator cannot express, or
+        # whose generated text does not compile, is left out (with everything that calls it) and the step is repeated:
+        # only a property that needs such a function is affected by it.
+        skip = set()
+        needed = {base_fn(f) for f in list(P.get('tie_functions', [])) + list(P.get('gen_functions', []))}
+        for attempt in range(8):
+            broken = []
+            build_ok = drv_ok = True
+            st = regen(skip)
+            if st['fatal']:
+                broken.append({'kind': 'translator', 'what': st['fatal']})
+                build_ok = drv_ok = False
+                break
+            for k, msg in sorted(st['failed'].items()):
+                if k in needed:
+                    broken.append({'kind': 'translator', 'what': f'{k}: {msg}'})
+            if pid == 'C09':
+                for k, msg in sorted(st['failed'].items()):
+                    notes.append(f'not translated: {k}: {msg}')
+                if not st['effects'][0]:
+                    broken.append({'kind': 'translator', 'what': 'effects.py: ' + st['effects'][1]})
+                    build_ok = False
+            more = set()
+            more_mods = list(P.get('more_proof_modules', ()))
+            if P.get('needs_api') and not st['api'][0]:
+                # app.py has left the translated subset: the theorems about its regenerated reading cannot be checked
+                broken.append({'kind': 'translator', 'what': 'api2lean.py: ' + st['api'][1]})
+                more_mods = [m for m in more_mods if m not in P.get('api_modules', ())]
+            targets = ([module] if module else []) + P.get('extra_modules', []) + more_mods
+            bok, btxt = lake_build(targets) if (targets and build_ok) else (build_ok, '')
             if not bok:
                 build_ok = False
                 errs = parse_build_errors(btxt)
                 if not errs:
                     raise Infra('lake build failed without a parsable Lean error:\n' + btxt[-3000:])
+                for e in errs:
+                    k = gen_decl_to_skip(e)
+                    if k and k not in skip:
+                        more.add(k)
                 for e in errs[:10]:
-                    broken.append({'kind': 'proof', 'what': f"{e['file']}:{e['line']} in `{e['decl']}`: {e['message']}", **e})
+                    what = f"{e['file']}:{e['line']} in `{e['decl']}`: {e['message']}"
+                    missing = [f"{k} was not translated ({m_})" for k, m_ in st['failed'].items()
+                               if k.split('.')[-1] in e['message']]
+                    broken.append({'kind': 'proof', 'what': what + (' — ' + '; '.join(missing)[:300] if missing else ''), **e})
             drv_targets = (['geodrv'] if P.get('needs_driver', True) else []) + list(P.get('drivers', []))
             if drv_targets:
                 dok, dtxt = lake_build(drv_targets)
@@ -264,17 +335,26 @@ def check_property(pid, tier_):
                     errs = parse_build_errors(dtxt)
                     if not errs:
                         raise Infra('driver build failed without a parsable Lean error:\n' + dtxt[-3000:])
+                    for e in errs:
+                        k = gen_decl_to_skip(e)
+                        if k and k not in skip:
+                            more.add(k)
                     for e in errs[:5]:
                         broken.append({'kind': 'model-build', 'what': f"{e['file']}:{e['line']} in `{e['decl']}`: {e['message']}", **e})
+            if not more:
+                break
+            skip |= more
+        if skip:
+            notes.append('generated text excluded after a Lean error: ' + ', '.join(sorted(skip)))
         # 3. AUDIT
         if build_ok and module:
-            thms = audit(module, ns, P.get('more_proof_modules', ()))
+            thms = audit(module, ns, more_mods)
             native_ok = set(P.get('native_theorems', []))
             for n, ax in thms.items():
                 extra = set(ax) - STD_AXIOMS
                 if extra and not (extra <= NATIVE_AXIOMS and n in native_ok):
                     broken.append({'kind': 'axioms', 'what': f'{n} depends on {sorted(extra)}'})
-            hits = grep_forbidden([module] + list(P.get('more_proof_modules', ())) + list(P.get('extra_modules', [])),
+            hits = grep_forbidden([module] + more_mods + list(P.get('extra_modules', [])),
                                   allow_native_in=P.get('native_files', ()))
             for h in hits:
                 broken.append({'kind': 'forbidden-token', 'what': h})
@@ -288,12 +368,28 @@ def check_property(pid, tier_):
                 if rc != 0 and rc != 124:
                     broken.append({'kind': 'leanchecker', 'what': (out + err)[-400:]})
 
+    # 3b. DRIFT of hand-modelled source (harness/drift.py): functions the hand model covers whose text is no longer
+    #     what the model was validated against -> larger budgets and literal-directed inputs below; never a verdict
+    drift = {'changed': [], 'literals': []}
+    try:
+        sys.path.insert(0, os.path.join(VERIF, 'harness'))
+        import drift as drift_mod
+        drift = drift_mod.detect(pid, REPO)
+    except Exception as ex:      # noqa
+        notes.append(f'drift detection unavailable: {ex}')
+    if drift['changed']:
+        env['VERIF_AIMED'] = '1'
+        env['VERIF_SCALE'] = '3'
+        env['VERIF_DRIFT'] = json.dumps(drift)
+        notes.append('hand-modelled source changed since the model was validated: ' + ', '.join(drift['changed'][:12]))
+
     # 4. TIE
     tie_rep = None
-    if drv_ok and P.get('tie_functions'):
+    tie_fns = [f for f in P.get('tie_functions', []) if base_fn(f) not in st.get('failed', {})]
+    if drv_ok and tie_fns:
         n = P.get('tie_n', {}).get(tier_, 2000 if tier_ == 'quick' else 100000)
         outp = os.path.join(WORK, f'tie_{pid}_{os.getpid()}.json')
-        cmd = [PY, os.path.join(VERIF, 'harness', 'tie.py'), '--functions', ','.join(P['tie_functions']),
+        cmd = [PY, os.path.join(VERIF, 'harness', 'tie.py'), '--functions', ','.join(tie_fns),
                '--n', str(n), '--out', outp]
         if P.get('tie_ulps'):
             cmd += ['--ulps', ','.join(f'{k}={v}' for k, v in P['tie_ulps'].items())]
@@ -331,12 +427,21 @@ def check_property(pid, tier_):
     #     a call HISTORY on which the property's functions return different results (state carried between calls):
     #     every call of random, ellipsoid/transformation-sharing sequences is replayed alone and in reversed order in
     #     fresh processes (the C09 harness); a difference on one of this property's functions is a failing history.
-    if broken and not search_rep.get('violations') and not corr_violations and P.get('tie_functions') and pid != 'C09':
+    known_open = [k for k in load_known() if k.get('property') == pid and k.get('status', 'open') == 'open']
+
+    def is_known(v):
+        key = v.get('key', '')
+        return any(key == k['key'] or (k.get('prefix') and key.startswith(k['key'])) for k in known_open)
+    fresh = [v for v in list(search_rep.get('violations', [])) + list(corr_violations) if not is_known(v)]
+    if broken and not fresh and P.get('tie_functions') and pid != 'C09':
         outp = os.path.join(WORK, f'hist_{pid}_{os.getpid()}.json')
         try:
-            rc, hist_rep, txt = run_json_tool([PY, os.path.join(VERIF, 'harness', 'corr_purity.py'), '--out', outp], outp, 1200, env)
-            os.remove(outp)
             fns = set(P['tie_functions']) | {f.split('.')[-1] for f in P['tie_functions']}
+            henv = dict(env)
+            henv['VERIF_FOCUS'] = ','.join(sorted({base_fn(f) for f in P['tie_functions']} | set(P['tie_functions'])))
+            rc, hist_rep, txt = run_json_tool([PY, os.path.join(VERIF, 'harness', 'corr_purity.py'), '--out', outp,
+                                               '--sequences', '100', '--xsequences', '160'], outp, 1200, henv)
+            os.remove(outp)
             for v in hist_rep.get('violations', []):
                 if any(f in v.get('key', '') for f in fns):
                     v = dict(v)
@@ -410,6 +515,8 @@ def check_property(pid, tier_):
         'correspondence': {k: v for k, v in (corr_rep or {}).items() if k not in ('samples', 'disagreements')},
         'search_stats': search_rep.get('stats', {}),
         'broken': broken,
+        'notes': notes,
+        'model_source_drift': drift['changed'],
         'known_findings_reproduced': sorted(known_hit.keys()),
         'exhaustive': False,
     })
@@ -453,9 +560,9 @@ def count_theorems(module):
 
 def setup():
     with Lock():
-        ok, msg = regen()
-        if not ok:
-            log('setup: translator failed: ' + msg)
+        st = regen()
+        if st['fatal'] or st['failed'] or not st['effects'][0] or not st['api'][0]:
+            log('setup: translator failed: ' + json.dumps(st)[:2000])
             return 2
         import propdefs
         targets = ['geodrv']
@@ -478,6 +585,27 @@ def replay(path):
     pid = obj['property']
     import propdefs
     P = propdefs.PROPS[pid]
+    key = (obj.get('violation') or {}).get('key', '')
+    if obj.get('kind') == 'failing-input' and key.startswith('history:'):
+        # a failing call history found by the cross-process harness: re-run exactly that sequence
+        head = (obj['violation'].get('input') or [''])[0]
+        m = re.match(r'replay: (.*)corr_purity\.py (--x?seq) (\d+)', head)
+        if m:
+            env = dict(kv.split('=', 1) for kv in m.group(1).split() if '=' in kv)
+            outp = os.path.join(WORK, f'replay_hist_{os.getpid()}.json')
+            os.makedirs(WORK, exist_ok=True)
+            rc, out, err = run([PY, os.path.join(VERIF, 'harness', 'corr_purity.py'), '--out', outp, m.group(2), m.group(3)],
+                               cwd=VERIF, env=env, timeout=1200)
+            rep = json.load(open(outp)) if os.path.exists(outp) else {}
+            if os.path.exists(outp):
+                os.remove(outp)
+            hits = [v for v in rep.get('violations', []) if ('history:' + v.get('key', '')) == key]
+            for v in hits[:3]:
+                log(json.dumps(v, indent=1)[:3000])
+            log(f'replay: {len(hits)} violation(s) with key {key[8:]} reproduced')
+            if hits:
+                log(f'VIOLATION property={pid} replay={path}')
+            return 1 if hits else 0
     if obj.get('kind') == 'failing-input' and P.get('probe'):
         interp = PYVT if P.get('probe_python') == 'vt' else PY
         env = {}
